@@ -399,6 +399,7 @@ fn parent_std_closed(ctx: &mut Ctx, rng: &mut Rng, i: u64) {
     };
     // (the lock is for making and unmaking the layout only: the watchdog must be able to look at a launch that hangs)
     drop(_hole);
+    let before = spawn::snap();
     let m = run::monitored(|| Popen::create(&argv, config));
     let evs = m.events();
     let res = m.result;
@@ -410,6 +411,17 @@ fn parent_std_closed(ctx: &mut Ctx, rng: &mut Rng, i: u64) {
         }
         _ => false,
     };
+    // the parent keeps its own side of the pipes and nothing else: an end meant for the child that stays open in the
+    // parent (it may sit on one of the numbers 0..2 here) withholds end-of-file just as well as one leaked into a child
+    if let Some(p) = &popen {
+        use std::os::unix::io::AsRawFd;
+        let allowed: Vec<i32> = [&p.stdin, &p.stdout, &p.stderr].iter().filter_map(|f| f.as_ref().map(|f| f.as_raw_fd())).collect();
+        let kept: Vec<String> = crate::ilog::quiet(|| spawn::leaked(&before, &spawn::snap(), &allowed)).into_iter().filter(|s| s.contains("pipe:")).collect();
+        ctx.count("parent_side_audits_after_a_launch_with_closed_standard_descriptors", 1);
+        if !kept.is_empty() {
+            ctx.violation("C08/parent-std-closed/parent-keeps-a-pipe-end-meant-for-the-child", "after the launch the parent holds, besides its own side, an end of a pipe that was meant for the child: the peer never sees end-of-file", J::obj().set("closed_in_parent", J::s(&format!("{} and {}", a, b))).set("kept", J::arr_s(&kept)));
+        }
+    }
     let rep = if launched { spawn::get_report(&exe, 3000) } else { None };
     if let Some(mut p) = popen {
         let _ = crate::ilog::quiet(|| p.wait());
